@@ -27,6 +27,7 @@ from harness import coq, skel
 from harness.common import (VERIF, drain_failures, make_orchestrator, parse_json_violations, pool_map, rng_for, run_cli,
                             scratch_dir)
 from harness.framework import Check
+from harness.props import c12_lazy
 
 PROP = "C12"
 FLAGS = ["q_rs_chain_start", "q_ts_arrow_node_start", "q_ts_console_chain_start", "q_fh_header_relative", "q_col_const_unclamped"]
@@ -184,6 +185,27 @@ def t_multiline_header(doc, r):
             break
     if did:
         doc["tags"].append("multiline-header")
+
+
+DECO_TARGET = re.compile(r"^(\s*)(?:async\s+def|def|class)\s")
+
+
+def t_deco_text(doc, r):
+    """documented Python examples (no recorded constructs): a decorator line - sometimes a multi-line decorator call - in front of `def` / `class`
+    headers; ast reports the header line for decorated definitions, so every reported position must stay on the `def` / `class` line"""
+    if doc["lang"] != "py":
+        return
+    out, did = [], False
+    for l in doc["lines"]:
+        mm = DECO_TARGET.match(l)
+        if mm and r.random() < 0.7:
+            ind = mm.group(1)
+            out += [ind + d for d in r.choice([["@tv_deco"], ["@tv_deco"], ["@tv_deco(1,", "         2)"]])]
+            did = True
+        out.append(l)
+    if did:
+        doc["lines"] = out
+        doc["tags"].append("decorated-text")
 
 
 def t_crlf(doc, r):
@@ -803,6 +825,56 @@ def s_print(seed, i):
     return {"id": f"print{i}", "stream": "print", "docs": [doc], "config": {}}
 
 
+def s_cqsts(seed, i):
+    """CQS on TypeScript / JavaScript: functions that mix a query (`const d = load(x)`) with a command (`save(d)`) as function declarations
+    (plain / async / exported), arrow functions and function expressions bound to a const, and class methods - at random indentation;
+    arrow declarations are broken after `=` as formatters do; then the position-only layouts"""
+    r = rng_for(seed, PROP, "cqsts", i)
+    lang = r.choice(["ts", "ts", "js"])
+    ann = (lambda t: ": " + t) if lang == "ts" else (lambda t: "")
+    lines, cons = [], []
+    names = r.sample(["fetchAndStore", "loadThenSave", "g", "refreshCache", "syncUser", "pullAndPush", "readWrite", "touchAll"], r.choice([1, 2, 3, 4]))
+    in_class = []
+    for n in names:
+        kind = r.choice(["decl", "decl", "async", "export", "arrow", "arrow", "arrow", "fexpr", "method"])
+        if kind == "method":
+            in_class.append(n)
+            continue
+        body = [f"  const data = load{r.choice(['', 'Data', 'Row'])}(id);", f"  save{r.choice(['', 'Data', 'Row'])}(data);", "  return data;"]
+        row = len(lines)
+        if kind in ("decl", "async", "export"):
+            pre = {"decl": "", "async": "async ", "export": "export "}[kind]
+            lines.append(f"{pre}function {n}(id{ann('string')}) {{")
+            hcol = len("export ") if kind == "export" else 0
+            cons.append(con("cqs.ts", n, row, hcol, fkind="FDef", pad_ok=(kind != "export")))
+            lines += body + ["}"]
+        elif kind == "arrow":
+            head = f"const {n} = "
+            lines.append(f"{head}(id{ann('string')}) => {{")
+            cons.append(con("cqs.ts", n, row, len(head), fkind="FArrow", pad_ok=True))
+            lines += body + ["};"]
+        else:
+            head = f"const {n} = "
+            lines.append(f"{head}function (id{ann('string')}) {{")
+            cons.append(con("cqs.ts", n, row, len(head), fkind="FExpr", pad_ok=True))
+            lines += body + ["};"]
+        if r.random() < 0.5:
+            lines.append("")
+    if in_class:
+        lines.append(f"class Store{i} {{")
+        for n in in_class:
+            mod = r.choice(["", "", "async ", "static "])
+            row = len(lines)
+            lines.append(f"  {mod}{n}(id{ann('string')}) {{")
+            cons.append(con("cqs.ts", n, row, 2, fkind="FMethod", pad_ok=True))
+            lines += ["    const data = this.load(id);", "    this.save(data);", "    return data;", "  }"]
+        lines.append("}")
+    doc = mk_doc(lang, "src/store" + EXT[lang], lines, cons, "cqsts")
+    _break_arrow_declarations(doc, r)
+    layout(doc, r, wrap_ok=(not any(l.startswith("export ") for l in lines)), light=True)
+    return {"id": f"cqsts{i}", "stream": "cqsts", "docs": [doc], "config": {}}
+
+
 TEMPORAL = ["currently", "recently", "will be", "soon", "formerly", "planned"]
 
 
@@ -871,6 +943,11 @@ def docs_cases(seed, variants):
                         t_wrap(d, r)
                         if len(d["tags"]) == before:
                             d = None
+                    elif step == "deco":
+                        before = len(d["tags"])
+                        t_deco_text(d, r)
+                        if len(d["tags"]) == before:
+                            d = None
                     elif step == "crlf":
                         t_crlf(d, r)
                     elif step == "nonl":
@@ -917,6 +994,11 @@ def run_case(case):
                 msg = msg.replace(root, "")
             out["v"].append([v.rule_id, _rel(v.file_path, d), v.line, v.column, msg])
         out["failures"] = drain_failures()
+        if case["stream"] == "lazy":
+            try:
+                out["lazy"] = {doc["name"]: c12_lazy.detector_views(p) for doc, p in zip(case["docs"], paths)}
+            except Exception as e:  # noqa: BLE001 - the scanners changed shape: visible as a broken correspondence
+                out["lazy_error"] = f"{type(e).__name__}: {e}"
         if case.get("via") == "cli":
             out["cli"] = _run_cli_views(case, d, paths)
         return out
@@ -1124,7 +1206,8 @@ def canon(rule: str, msg: str, fname: str, line_text: str):
     elif rule == "cqs":
         mm = m("cqs")
         if mm:
-            return "", "", [mm.group("full_name").split(".")[-1]], []
+            own = mm.group("full_name").split(".")[-1]
+            return ("cqs." + lk if lk in ("py", "ts") else ""), own, ([] if own in PLACEHOLDER_NAMES else [own]), []
     elif rule == "performance.string-concat-loop":
         mm = m("performance.concat")
         if mm:
@@ -1395,9 +1478,11 @@ def run(tier: str, seed: int, replay: str | None = None) -> int:
     chk.rule = ("generated programs of every modelled linter (generators of C01/C02/C03/C16/C17 and a print / console generator) laid out with "
                 "random vertical and horizontal offsets, blank / comment lines in front of constructs, decorators / attributes, multi-line headers, "
                 "CRLF, no final newline, characters str.splitlines() splits at (FF, VT, FS/GS/RS, NEL, U+2028/9) in comments, string literals and as page breaks; "
-                "several Rust files in one run; duplicate-constant projects (Python, TS/JS multi-line multi-declarator const statements); histories with one "
-                "long-lived Linter (lint, shorten / delete files, lint again: the last run is judged); every documented example of every CLI linter under position-only layouts (as is, shifted down, wrapped "
-                "in a block, CRLF, no final newline); generated file headers and file-level cases (empty files); each file is linted with "
+                "several Rust files in one run; duplicate-constant projects (Python, TS/JS multi-line multi-declarator const statements); CQS-violating TypeScript / JavaScript functions "
+                "(declarations, arrow functions / function expressions bound to a const - also broken after `=` -, class methods); histories with one "
+                "long-lived Linter (lint, shorten / delete files, lint again: the last run is judged); lazy-ignores text files (directives and pytest skips inside / outside "
+                "triple-quoted regions, string literals, both quote styles, escaped quotes, exotic line boundaries: the two scanners are compared with their model, list equality); every documented example of every CLI linter under position-only layouts (as is, shifted down, wrapped "
+                "in a block, CRLF, no final newline, decorators in front of Python def / class headers); generated file headers and file-level cases (empty files); each file is linted with "
                 "every rule (in-process Orchestrator; a fraction through the CLI as JSON and SARIF) and every reported violation is judged in "
                 "Coq against the property and the builder model; a case is non-trivial when it yields at least one judged violation; distinct = "
                 "distinct (stream, rendered files)")
@@ -1409,14 +1494,15 @@ def run(tier: str, seed: int, replay: str | None = None) -> int:
         "columns are compared in bytes (CPython col_offset and tree-sitter columns are UTF-8 byte offsets)",
         "which constructs a linter flags is out of scope here (C01/C02/C03/C16/C17/C19): every reported violation is judged, a missing one is not noticed",
     ]
-    res = chk.build(["theories/Props/C12.v"], ["LocGen", "LocPatGen"], known_v=["theories/Props/C12Known.v"])
+    res = chk.build(["theories/Props/C12.v"], ["LocGen", "LocPatGen", "LocLazyGen"], known_v=["theories/Props/C12Known.v"])
     judge_built = all(f"theories/{sub}/{name}" in res.compiled for sub, name in JUDGE_CONE)
     pat_built = judge_built and all(f in res.compiled for f in ("theories/Gen/LocPatGen.v", "theories/Model/LocPat.v"))
+    lazy_built = all(f"theories/{sub}/{name}" in res.compiled for sub, name in c12_lazy.LAZY_CONE)
     load_known_d(chk)
     scale = chk.budget_scale()
     q = 1 if tier == "quick" else 10
-    counts = {"nesting": 60 * q, "magic": 45 * q, "srp": 45 * q, "rust": 60 * q, "rustchain": 30 * q, "rustmulti": 12 * q, "dryconst": 24 * q, "history": 8 * q, "dry": 16 * q, "print": 40 * q, "header": 14 * q, "filelevel": 10 * q}
-    gens = {"nesting": s_nesting, "magic": s_magic, "srp": s_srp, "rust": s_rust, "rustchain": s_rustchain, "rustmulti": s_rustmulti, "dryconst": s_dryconst, "history": s_history, "dry": s_dry, "print": s_print, "header": s_header, "filelevel": s_filelevel}
+    counts = {"nesting": 60 * q, "magic": 45 * q, "srp": 45 * q, "rust": 60 * q, "rustchain": 30 * q, "rustmulti": 12 * q, "dryconst": 24 * q, "history": 8 * q, "dry": 16 * q, "print": 40 * q, "header": 14 * q, "filelevel": 10 * q, "lazy": 36 * q, "cqsts": 24 * q}
+    gens = {"nesting": s_nesting, "magic": s_magic, "srp": s_srp, "rust": s_rust, "rustchain": s_rustchain, "rustmulti": s_rustmulti, "dryconst": s_dryconst, "history": s_history, "dry": s_dry, "print": s_print, "header": s_header, "filelevel": s_filelevel, "lazy": c12_lazy.s_lazy, "cqsts": s_cqsts}
     if replay:
         cases = [json.loads(Path(replay).read_text())["violation"]["case"]]
         ext = {"unparsable": [], "unknown_docs": []}
@@ -1430,9 +1516,9 @@ def run(tier: str, seed: int, replay: str | None = None) -> int:
                     chk.notes.append(f"generator {name} #{i} failed: {type(e).__name__}: {e}")
                     chk.broken.append(f"Model:generator {name} raised {type(e).__name__}: {str(e)[:200]}")
                     break
-        variants = ["base", "vshift", "wrap", "crlf", "nonl", "exotic"]
+        variants = ["base", "vshift", "wrap", "crlf", "nonl", "exotic", "deco"]
         if tier != "quick":
-            variants += ["exotic+crlf", "wrap+exotic", "vshift+crlf", "wrap+vshift", "wrap+nonl", "vshift+nonl", "wrap+crlf", "vshift+vshift"]
+            variants += ["deco+vshift", "wrap+deco", "exotic+crlf", "wrap+exotic", "vshift+crlf", "wrap+vshift", "wrap+nonl", "vshift+nonl", "wrap+crlf", "vshift+vshift"]
         dcs, ext = docs_cases(seed, variants)
         cases += dcs
         if ext["unknown_docs"]:
@@ -1639,6 +1725,33 @@ def run(tier: str, seed: int, replay: str | None = None) -> int:
                                                          "computes for the tree-sitter tree of this file", "file": rel, "impl": reps[:8], "case": slim(case)})
             except RuntimeError as e:
                 chk.broken.append(f"Model:evaluation of the pattern-linter models failed ({str(e)[:400]})")
+    # ---- lazy-ignores: the two text scanners against their model (Model/LocLazy.v), every rule-level violation against the model's directives
+    lj = []
+    try:
+        lj = c12_lazy.lazy_jobs(cases, impls, msg_regexes()["lazy.unjustified"])
+    except Exception as e:  # noqa: BLE001
+        chk.broken.append(f"Model:lazy-ignores jobs could not be built ({type(e).__name__}: {str(e)[:200]})")
+    for case, im in zip(cases, impls):
+        if im.get("lazy_error"):
+            chk.broken.append(f"Model:lazy-ignores scanners could not be run as the harness expects ({im['lazy_error'][:200]})")
+            break
+    if lj:
+        with scratch_dir("tv-c12-lazy-") as wd:
+            per = 12
+            shards = ["\n".join(lj[j][4] for j in range(s0, min(len(lj), s0 + per))) for s0 in range(0, len(lj), per)]
+            try:
+                lth = coq.TH
+                if not lazy_built:
+                    lth = recorded_layer_theories(wd / "recorded", c12_lazy.LAZY_CONE)
+                    if lth is None:
+                        raise RuntimeError("the lazy-ignores scanner model does not build and no recorded generated layer is available")
+                    chk.notes.append("the lazy-ignores scanner model was evaluated with the recorded generated layer (coq/Gen.expected/LocLazyGen.v.txt)")
+                outs = [o for sh in eval_shards_th(wd / "shards", shards, lth, c12_lazy.LAZY_HEADER) for o in sh]
+                if len(outs) != len(lj):
+                    raise RuntimeError(f"expected {len(lj)} results, got {len(outs)}")
+                c12_lazy.decide(chk, cases, lj, outs, slim)
+            except RuntimeError as e:
+                chk.broken.append(f"Model:evaluation of the lazy-ignores scanner model failed ({str(e)[:400]})")
     # ---- documented multi-line chains, SARIF / JSON views, bookkeeping
     for ci, (case, im) in enumerate(zip(cases, impls)):
         texts = tuple(sorted((d["name"], doc_text(d) if d.get("raw") is None else d["raw"]) for d in case["docs"]))
@@ -1676,7 +1789,7 @@ def run(tier: str, seed: int, replay: str | None = None) -> int:
     return chk.finish()
 
 
-CLI_OF_STREAM = {"nesting": "nesting", "magic": "magic-numbers", "srp": "srp", "print": "improper-logging", "header": "file-header",
+CLI_OF_STREAM = {"lazy": "lazy-ignores", "nesting": "nesting", "magic": "magic-numbers", "srp": "srp", "print": "improper-logging", "header": "file-header",
                  "docs:lbyl": "lbyl", "docs:method-property": "method-property", "docs:stateless-class": "stateless-class", "docs:pipeline": "pipeline",
                  "docs:perf": "perf", "docs:lazy-ignores": "lazy-ignores", "docs:unwrap-abuse": "unwrap-abuse", "docs:clone-abuse": "clone-abuse",
                  "docs:blocking-async": "blocking-async", "docs:improper-logging": "improper-logging", "docs:magic-numbers": "magic-numbers",
